@@ -558,6 +558,16 @@ def c04_gen(rng):
             bs.insert(rng.randrange(len(bs) + 1) if not bs or bs[0][0] != '/' else rng.randrange(1, len(bs) + 1),
                       (gen.role(rng), rng.choice([(None, []), (None, []), None])))
         t = (var, bs)
+    if maybe(rng, 0.15):
+        # a relation without target as the LAST branch of some nested node (directly before its ")")
+        def walk(n):
+            for _, tgt in n[1]:
+                if isinstance(tgt, tuple) and tgt[0] is not None:
+                    yield tgt
+                    yield from walk(tgt)
+        nested = list(walk(t))
+        if nested:
+            rng.choice(nested)[1].append((gen.role(rng), None))
     return {'tree': j_node(t), 'model': gen.gen_model(rng)}
 
 
@@ -578,10 +588,12 @@ def c04_check(case):
     # the same reading through the public decoding entry points (text level), with the caller's model
     try:
         text = penman.format(Tree(node), indent=None)
-        same = penman.parse(text).node == node
-    except Exception:  # noqa: BLE001
-        same = False
-    if same:
+        back = penman.parse(text).node
+    except Exception as e:  # noqa: BLE001
+        return f'the text of a valid tree does not parse: {type(e).__name__}: {e}'
+    if back != node:
+        return f'the text {text!r} of the tree is parsed as another tree: {back!r}'
+    if True:
         try:
             gp = decode_pub(text, m)
         except Exception as e:  # noqa: BLE001
@@ -1021,7 +1033,12 @@ def c07_check(case):
 def c08_gen(rng):
     n = rng.randint(0, 14)
     alpha = gen.ALPHABET_FULL + ['~e.1', '~1,2', '"a\\"b"', ':r', '# x', '"', '"', '\\', '\\"', '\\\\', '"x\\']
-    return {'line': ''.join(rng.choice(alpha) for _ in range(n)), 'mode': rng.choice(['penman', 'triples'])}
+    case = {'line': ''.join(rng.choice(alpha) for _ in range(n)), 'mode': rng.choice(['penman', 'triples'])}
+    if rng.random() < 0.15:
+        # another lexer, on another text, is alive and advanced while this line is lexed
+        case['beside'] = ''.join(rng.choice(['(', 'a', '/', 'b', ':r', ')', '"s"', '~1']) + rng.choice([' ', ' ', '\n'])
+                                 for _ in range(rng.randint(2, 8)))
+    return case
 
 
 def doc_class(line, i, mode):
@@ -1085,7 +1102,15 @@ def c08_check(case):
         return f'lexing the str differs from lexing its lines (split at LF/CRLF/CR only): {got!r} vs {want!r}'
     if len(pieces) > 1:
         return None
-    toks = list(_lexer.lex([line], pattern=pat))
+    if case.get('beside') is not None:
+        other = iter(_lexer.lex(case['beside'], pattern=pat))
+        next(other, None)
+        toks = []
+        for t in _lexer.lex([line], pattern=pat):
+            toks.append(t)
+            next(other, None)
+    else:
+        toks = list(_lexer.lex([line], pattern=pat))
     pos = 0
     for t in toks:
         if t.lineno != 1:
@@ -1916,10 +1941,54 @@ def c19_gen(rng):
     if maybe(rng, 0.5):
         # a different spelling at every conjunction sign (glued "^role" and free-standing "^ role" mixed)
         case['carets'] = [rng.choice([' ^', '^', ' ^ ', '^ ', ' ^\n']) for _ in range(n - 1)]
+    if maybe(rng, 0.08):
+        # the command's --triples output is such a conjunction too: of the graph's own triples, in order
+        # (also when a variable is given a node twice, or a triple is written twice)
+        case['cli'] = rng.choice([
+            '(a / alpha :ARG0 (b / beta :ARG0 (a / gamma)))', '(p / person) (p / person)',
+            '(a / alpha :ARG0 b :ARG1 (c / x) :ARG0 b)', '(a / alpha :ARG0 (b / beta) :ARG1 (b / beta :mod 7))',
+            gen.gen_penman_string(rng, wf=maybe(rng, 0.5)), gen.gen_penman_string(rng, wf=True)])
     return case
 
 
+def c19_cli(case):
+    try:
+        gs = list(penman.iterdecode(case['cli']))
+    except Exception:  # noqa: BLE001
+        return None
+    want = []
+    for g in gs:
+        for s, r, t in g.triples:
+            if not (isinstance(s, str) and is_symbol(s) and ',' not in s and not s.startswith('^')):
+                return None
+            body = r.lstrip(':')
+            if body == '' or not is_symbol(body) or ',' in body or '(' in body or body.startswith('^'):
+                return None
+            if not (isinstance(t, str) and (is_string(t) or (is_symbol(t) and ',' not in t))):
+                return None
+            want.append((s, ':' + body, t))
+    if not want:
+        return None
+    r = ops.run_main('default', {'triples': True, 'indent': -1 if case['indent'] else None}, [case['cli']])
+    if r.get('exit') != {'ok': 0}:
+        return f"penman --triples exited with {r.get('exit')!r}"
+    got = []
+    for block in r['out'].split('\n\n'):
+        if block.strip():
+            try:
+                got += penman.parse_triples(block)
+            except Exception as e:  # noqa: BLE001
+                return f'parse_triples raised {type(e).__name__}: {e} on the --triples output {block!r}'
+    if got != want:
+        return f'penman --triples printed {r["out"]!r}: parsed {got!r}, the triples are {want!r}'
+    return None
+
+
 def c19_check(case):
+    if case.get('cli') is not None:
+        v = c19_cli(case)
+        if v is not None:
+            return v
     ts = [tuple(t) for t in case['triples']]
     for s, r, t in ts:
         if not is_symbol(s) or ',' in s or s.startswith('^'):
